@@ -47,9 +47,19 @@ def plan(tier: str, seed: int) -> Plan:
                                bounds="documents d1, d2, d1 (independent, 3 Optional[int] leaves each, <=2 candidates) through one compiled query"))
     iq = QUERIES if thorough else [QUERIES[0], QUERIES[5], QUERIES[11]]
     for q in iq:
-        for k in ([2, 4] if not thorough else [2, 4, 6]):
-            conds.append(Condition(f"interleave{k}:{q}", "interleave", H, "interleave", {"qtext": q, "sched": k, "maxn": 2 if thorough else 1}, T * 2, required=False,
+        for k, sfix in ([(2, None)] + [(4, [x, y]) for x in (True, False) for y in (True, False)] + ([(6, None)] if thorough else [])):
+            conds.append(Condition(f"interleave{k}:{q}" + (f":first={int(sfix[0])}{int(sfix[1])}" if sfix else ""), "interleave", H, "interleave",
+                                   {"qtext": q, "sched": k, "sfix": sfix, "maxn": 2 if thorough else (0 if k == 4 and ".." in q else 1)}, T * 2, required=False,
                                    bounds=f"two lazy iterators of one compiled query, {k} symbolic scheduling choices, then drained"))
+    plain = ["$..a", "$..*", "$..[?@.a == $.k]", "$.xs[?@.a == $.k]", "$..xs[?count($.xs[?@.a == 1]) > 1 && # > 0]", "$..[?@.a == $.k].a"]
+    for q in (plain if thorough else plain[:2]):
+        conds.append(Condition(f"interleave4:{q}", "interleave", H, "interleave", {"qtext": q, "sched": 4, "maxn": 1}, T * 2, required=False,
+                               bounds="two lazy iterators of one compiled query, 4 symbolic scheduling choices, then drained"))
+    for q in (plain if thorough else plain[:3] + plain[4:5]):
+      for take in ([None] if "?" not in q else [-1, 1, 2, 3]):
+        conds.append(Condition(f"partial:{q}:take={take}", "partial", H, "partial", {"qtext": q, "maxn": 1 if take is None else 0, "take": take}, T * 2, required=False,
+                               bounds="match(), or an iterator advanced 0..4 times and abandoned, then full evaluations of the same compiled "
+                                      "query on another and on the same document"))
     return Plan(
         conditions=conds,
         explanation=(
